@@ -34,12 +34,15 @@ CONSTANTS
   MaxEnter,            \* calls start at now <= MaxEnter
   MaxDelay,            \* controller reply delay bound (T-1: always timely)
   PeerFaults,          \* subset of {"silence","refused","reset","blackhole"} the controller side may choose instead of replying
-                       \* (blackhole: TCP only - the SYN is never answered, the connect itself must give up at the deadline)
+                       \* (blackhole: TCP only - the SYN is never answered, the connect itself must give up at the deadline;
+                       \*  slowstall: TCP only - the handshake completes only after a delay, then the peer accepts and stalls:
+                       \*  dial, write and read share ONE absolute deadline taken when the dial starts)
   DeadlineBeforeLock,  \* design switch (defect F10: deadline computed before waiting for the guard)
   NoGuard,             \* design switch (no process-wide lock around a fixed port)
   GuardPerClient,      \* design switch (the lock belongs to a client instead of the process: clients do not exclude each other)
   RearmPerRead,        \* design switch (deadline re-armed before every read: a flood keeps a call alive)
-  NoCloseOnError       \* design switch (socket not closed on the error path)
+  NoCloseOnError,      \* design switch (socket not closed on the error path)
+  RearmAfterConnect    \* design switch (TCP: the deadline is taken again once the connection is established)
 
 VARIABLES now, pc, guard, dl, askedAt, q, open, pend, out, plan, strays, sends, hist
 
@@ -108,9 +111,10 @@ Lock(c) ==
 \* what the controller side does with a request: a peer fault, or a sequence of 1..MaxReplies datagrams
 ReplySeqs == UNION {[1..n -> ReplyClasses \X (0..MaxDelay)] : n \in 1..MaxReplies}
 Ordered(s) == \A i \in 1..(Len(s) - 1) : s[i][2] <= s[i + 1][2]
-Plans(c) == {<<<<f, 0>>>> : f \in PeerFaults \cap (IF Path(c) = "tcp" THEN {"silence", "refused", "reset", "blackhole"} ELSE IF Path(c) = "udp" THEN {"silence", "refused"} ELSE {"silence"})}
+Plans(c) == (IF Path(c) = "tcp" /\ "slowstall" \in PeerFaults THEN {<<<<"slowstall", cd>>>> : cd \in 1..(T - 1)} ELSE {}) \cup
+            {<<<<f, 0>>>> : f \in PeerFaults \cap (IF Path(c) = "tcp" THEN {"silence", "refused", "reset", "blackhole"} ELSE IF Path(c) = "udp" THEN {"silence", "refused"} ELSE {"silence"})}
             \cup {s \in ReplySeqs : Ordered(s)}
-IsFault(p) == Len(p) = 1 /\ p[1][1] \in {"silence", "refused", "reset", "blackhole"}
+IsFault(p) == Len(p) = 1 /\ p[1][1] \in {"silence", "refused", "reset", "blackhole", "slowstall"}
 
 \* a fixed port that is still held by an open socket cannot be bound again (the OS port table)
 PortBusy(c) == FixedPort /\ open # {}
@@ -132,6 +136,13 @@ Send(c) ==
                       /\ pc' = [pc EXCEPT ![c] = "closing"]
                       /\ askedAt' = [askedAt EXCEPT ![c] = now]
                       /\ UNCHANGED <<dl, open, pend, sends>>
+                 ELSE IF p[1][1] = "slowstall"
+                 THEN \* the dial starts (socket bound, deadline armed) but the handshake takes p[1][2] ticks: see Connect
+                      /\ dl' = [dl EXCEPT ![c] = d]
+                      /\ open' = open \cup {c}
+                      /\ askedAt' = [askedAt EXCEPT ![c] = now]
+                      /\ pc' = [pc EXCEPT ![c] = "dialing"]
+                      /\ UNCHANGED <<out, pend, sends>>
                  ELSE IF p[1][1] = "blackhole"
                  THEN \* the SYN is never answered: the socket is bound and the dial waits, bounded by the same deadline;
                       \* no request ever leaves
@@ -155,6 +166,18 @@ Send(c) ==
                                            ELSE pend \cup {[to |-> c, cls |-> p[i][1], at |-> now + p[i][2], reqOf |-> c, n |-> i] : i \in 1..Len(p)}
             /\ Log([a |-> "Send", c |-> c, t |-> now, plan |-> p])
   /\ UNCHANGED <<now, guard, q, strays>>
+
+\* the slow handshake completes: the request is written now - under the deadline that was armed when the dial started
+Connect(c) ==
+  /\ pc[c] = "dialing" /\ now >= askedAt[c] + plan[c][1][2] /\ now < dl[c]
+  /\ sends' = [sends EXCEPT ![c] = @ + 1]
+  /\ IF Kind(c) = "setaddr"
+       THEN /\ out' = [out EXCEPT ![c] = [kind |-> "ok", from |-> None, cls |-> None, at |-> now]]
+            /\ pc' = [pc EXCEPT ![c] = "closing"]
+       ELSE /\ pc' = [pc EXCEPT ![c] = "sent"] /\ UNCHANGED out
+  /\ dl' = IF RearmAfterConnect THEN [dl EXCEPT ![c] = now + T] ELSE dl
+  /\ Log([a |-> "Connect", c |-> c, t |-> now])
+  /\ UNCHANGED <<now, guard, askedAt, q, open, pend, plan, strays>>
 
 \* sockets a datagram addressed to call `to`'s local port can end up in
 Receivers(p) ==
@@ -198,7 +221,7 @@ Recv(c) ==
   /\ UNCHANGED <<now, guard, askedAt, open, pend, plan, strays, sends, hist>>
 
 Timeout(c) ==
-  /\ pc[c] = "sent" /\ now >= dl[c]
+  /\ pc[c] \in {"sent", "dialing"} /\ now >= dl[c]
   /\ out' = [out EXCEPT ![c] = [kind |-> "timeout", from |-> None, cls |-> None, at |-> now]]
   /\ pc' = [pc EXCEPT ![c] = "closing"]
   /\ UNCHANGED <<now, guard, dl, askedAt, q, open, pend, plan, strays, sends, hist>>
@@ -231,6 +254,7 @@ Urgent ==
   \/ \E p \in pend : p.at <= now
   \/ \E c \in Calls : pc[c] = "sent" /\ (q[c] # <<>> \/ now >= dl[c] \/ (plan[c] # <<>> /\ plan[c][1][1] \in {"reset", "refused"}))
   \/ \E c \in Calls : pc[c] \in {"closing", "locked", "returning"}
+  \/ \E c \in Calls : pc[c] = "dialing" /\ (now >= askedAt[c] + plan[c][1][2] \/ now >= dl[c])
   \/ \E c \in Calls : pc[c] = "entered" /\ (CanLock(c) \/ ~NeedsGuard)
 
 Tick ==
@@ -241,7 +265,7 @@ Tick ==
 
 Next ==
   \/ Tick
-  \/ \E c \in Calls : Enter(c) \/ Lock(c) \/ Send(c) \/ Recv(c) \/ Timeout(c) \/ PeerErr(c) \/ Finish(c) \/ Return(c)
+  \/ \E c \in Calls : Enter(c) \/ Lock(c) \/ Send(c) \/ Connect(c) \/ Recv(c) \/ Timeout(c) \/ PeerErr(c) \/ Finish(c) \/ Return(c)
   \/ \E c \in Calls, cls \in StrayClasses : Stray(c, cls)
   \/ \E p \in pend : Deliver(p)
 
@@ -284,9 +308,9 @@ TimelyAnswerAccepted ==
   \A c \in Calls : (pc[c] = "done" /\ Normal(c) /\ AnsweredFirstValid(c) /\ strays = 0) => out[c].kind = "ok"
 
 \* C09 -- every call ends within its timeout of being served, never gives up early, releases its socket
-DeadlineFromAsk == \A c \in Calls : (askedAt[c] # -1 /\ pc[c] = "sent") => dl[c] = askedAt[c] + T
+DeadlineFromAsk == \A c \in Calls : (askedAt[c] # -1 /\ pc[c] \in {"sent", "dialing"}) => dl[c] = askedAt[c] + T
 NoEarlyGiveUp == \A c \in Calls : out[c].kind = "timeout" => (askedAt[c] # -1 /\ out[c].at >= askedAt[c] + T)
-BoundedReturn == \A c \in Calls : (pc[c] = "sent") => now <= askedAt[c] + T
+BoundedReturn == \A c \in Calls : (pc[c] \in {"sent", "dialing"}) => now <= askedAt[c] + T
 Released == \A c \in Calls : pc[c] \in {"returning", "done"} => (c \notin open /\ c \notin guard)
 Termination == \A c \in Calls : (pc[c] = "entered") ~> (pc[c] = "done")
 
